@@ -10,7 +10,7 @@ from .guardlib import gval, comparisons, lt_true, ge_true
 
 MANIFEST = {
     "text": 'Ordering, who-may-call and table rules on XmlSerializer: every namespace registration happens before the xmlns declarations of the element are written and only in start_elem (declare-before-use), everything written between \'="\' and \'"\' goes through the attribute escaper, the escape table covers what the XML tokenizer rewrites or interprets (&, <, quotes, CR) and is reversible, scopes are pushed/popped once per element; plus equality of every serializer function with its reviewed normal form. An unprefixed element in no namespace un-declares an inherited default namespace (R17.6: found violated, fixed as F23); a whole-text shortcut in the escaper must test every escaped character (R17.3).',
-    "note": 'Decides R17.1-R17.6 (necessary conditions). Not decided: the re-parse. Also decided: the innermost binding of a prefix decides in find_uri; NamespaceMap::insert always records a binding (R17.7). Round 6: attribute-name start characters agree between tokenizer states (R17.10; known finding K2, ’:’ after a value-less attribute), ’&amp;=’ decoded in XML attribute values (R17.11), comments / PIs / doctype names written verbatim (R17.12). Round 7: rcdom child walk (R17.13 = R07.13), PI target state consumes white space only (R17.14). Round 8: R17.15 = R16.10 (a declaration the tree builder rejects must not survive as an attribute).',
+    "note": 'Decides R17.1-R17.6 (necessary conditions). Not decided: the re-parse. Also decided: the innermost binding of a prefix decides in find_uri; NamespaceMap::insert always records a binding (R17.7). Round 6: attribute-name start characters agree between tokenizer states (R17.10; known finding K2, ’:’ after a value-less attribute), ’&amp;=’ decoded in XML attribute values (R17.11), comments / PIs / doctype names written verbatim (R17.12). Round 7: rcdom child walk (R17.13 = R07.13), PI target state consumes white space only (R17.14). Round 8: R17.15 = R16.10 (a declaration the tree builder rejects must not survive as an attribute). R17.16: the layout of start / end tags and qualified names.',
     "technique": 'must-precede / who-may-call rules over function normal forms + escape-table check',
 }
 LEVEL = "other"
